@@ -236,7 +236,7 @@ int main(int argc, char** argv) {
             World real(dv_, [&](int) { return v->make(); }, false), model(dv_, [&](int r) { return (IMachine*)new Model(dv_, dialect_of(*v), r); }, true);
             real.observe_each = model.observe_each = pf.observe_each;
             real.run(plan); model.run(plan);
-            print_trace_window(dv_, real, model, oc.dv.index, 40, 8);
+            print_trace_window(dv_, real, model, oc.dv.index, getenv("VERIF_WINDOW") ? atoi(getenv("VERIF_WINDOW")) : 40, 8);
             if (real.aborted) printf("library assertion: %s\n", real.abort_msg.c_str());
         }
         return oc.verdict == V_OK ? 0 : 1;
